@@ -143,9 +143,10 @@ CHECKS = {
         'flight three fault-free exchanges return the result (C20_client_converges). T1: _get_retry_request_or_raise tabulated on every error '
         'code x request kind and kernel-decided equal to the Lean table. T2: the real Collector.collect driven in a thread by a fake sampler '
         '(every completion order of 3-4 jobs + random schedules with failures and budgets), the real StreamManager on its AsyncioExecutor against a '
-        'scripted fake server through all fault scripts up to length 3/4, ResponseDemux under every publish order.',
-        'Trusted: Lean kernel; harness + driver; duet / asyncio semantics; thread races inside one step, real gRPC transport, engine_client / '
-        'engine_job polling paths and cancellation are outside the model (partial).',
+        'scripted fake server through all fault scripts up to length 3/4, ResponseDemux under every publish order; PauliSumCollector driven to exhaustion (per-term budget, job cap, tags, estimate); '
+        'EngineJob after a broken stream against a scripted unary server (re-created at most once and only when unknown, awaited for any number of status queries, result fetched once).',
+        'Trusted: Lean kernel; harness + driver; duet / asyncio semantics; thread races inside one step, real gRPC transport, engine_client '
+        'request paths and cancellation of polling are outside the model (partial).',
         'Lean 4 proof (invariants by induction over schedules and fault sequences) + kernel-decided retry table + trace correspondence',
         'DESIGN.md §3 C20',
     ),
